@@ -74,7 +74,7 @@ def run(ctx, model=None):
             ctx.violation("percent-exact", {"k": k, "prob": x}, {"prob_to_str": s, "expected": str(k)})
     ctx.extra["exhaustive_percentages"] = True
     # float grid for the correspondence of the rounding model
-    grid = [rng.random() for _ in range(300 if ctx.quick() else 5000)] + [j / 1000 for j in range(1, 1000, 7)] + \
+    grid = [rng.random() for _ in range(300 if ctx.quick() else 50000)] + [j / 1000 for j in range(1, 1000, 7)] + \
         [0.005, 0.015, 0.025, 0.125, 0.375, 0.625, 0.875, 0.995, 0.994999, 0.0049, 1e-9]
     if model is not None:
         exp = []
@@ -101,7 +101,7 @@ def run(ctx, model=None):
         check_main(ctx, p, model, seen)
         if ctx.time_left() < 0:
             return
-    for _ in range(20 if ctx.quick() else 3000):
+    for _ in range(20 if ctx.quick() else 20000):
         p = {"seed": rng.choice([0, 1, 7, 47, 999132423]), "w": rng.randint(1, 4), "l": rng.randint(1, 4),
              "m": rng.choice([1, 2, 6, 11]), "rb": rng.choice(ks), "lb": rng.choice(ks), "tb": rng.choice(ks),
              "lt": rng.choice(ks), "fd": rng.random() < 0.5}
